@@ -3,7 +3,7 @@
    The model indexes cells, sizes and timesteps by nat; the source-derived definitions are over Z, so the
    statement injects the model's inputs (Z.of_nat; the scheduled additions elementwise). *)
 From Coq Require Import ZArith List Bool Lia ZifyBool ZifyNat.
-From CPL Require Import Model.Base Model.Rules Model.Sandpile gen.GenFuns.
+From CPL Require Import Model.Base Model.Rules Model.Sandpile gen.GenFuns_C14.
 Import ListNotations.
 Local Open Scope Z_scope.
 
